@@ -6,6 +6,7 @@ require (
 	github.com/apparentlymart/go-textseg/v15 v15.0.0
 	github.com/hashicorp/hcl/v2 v2.0.0
 	github.com/zclconf/go-cty v1.16.3
+	golang.org/x/text v0.31.0
 )
 
 require (
@@ -14,7 +15,6 @@ require (
 	github.com/mitchellh/go-wordwrap v1.0.1 // indirect
 	golang.org/x/mod v0.29.0 // indirect
 	golang.org/x/sync v0.18.0 // indirect
-	golang.org/x/text v0.31.0 // indirect
 	golang.org/x/tools v0.38.0 // indirect
 )
 
